@@ -9,8 +9,29 @@ static LIVE: AtomicUsize = AtomicUsize::new(0);
 static PEAK: AtomicUsize = AtomicUsize::new(0);
 static ALLOCS: AtomicUsize = AtomicUsize::new(0);
 
+/// An allocation request beyond this size cannot be meant: it is what a length field taken from
+/// untrusted bytes produces.  Instead of letting the process abort (which nothing could record),
+/// the request is remembered (`take_huge`) and served with a small block; the code under test only
+/// ever puts a few hundred bytes into it.
+const HUGE: usize = 1 << 33;
+const SERVED: usize = 1 << 22;
+static HUGE_REQ: AtomicUsize = AtomicUsize::new(0);
+
+/// The size of the largest absurd allocation request since the last call (0: none).
+pub fn take_huge() -> usize {
+    HUGE_REQ.swap(0, Ordering::SeqCst)
+}
+
+fn served(l: Layout) -> Layout {
+    Layout::from_size_align(SERVED, l.align()).unwrap()
+}
+
 unsafe impl GlobalAlloc for Counting {
     unsafe fn alloc(&self, l: Layout) -> *mut u8 {
+        if l.size() >= HUGE {
+            HUGE_REQ.fetch_max(l.size(), Ordering::SeqCst);
+            return System.alloc(served(l));
+        }
         let p = System.alloc(l);
         if !p.is_null() {
             let live = LIVE.fetch_add(l.size(), Ordering::Relaxed) + l.size();
@@ -19,11 +40,38 @@ unsafe impl GlobalAlloc for Counting {
         }
         p
     }
+    unsafe fn alloc_zeroed(&self, l: Layout) -> *mut u8 {
+        if l.size() >= HUGE {
+            HUGE_REQ.fetch_max(l.size(), Ordering::SeqCst);
+            return System.alloc_zeroed(served(l));
+        }
+        let p = self.alloc(l);
+        if !p.is_null() {
+            std::ptr::write_bytes(p, 0, l.size());
+        }
+        p
+    }
     unsafe fn dealloc(&self, p: *mut u8, l: Layout) {
+        if l.size() >= HUGE {
+            System.dealloc(p, served(l));
+            return;
+        }
         System.dealloc(p, l);
         LIVE.fetch_sub(l.size(), Ordering::Relaxed);
     }
     unsafe fn realloc(&self, p: *mut u8, l: Layout, new: usize) -> *mut u8 {
+        if l.size() >= HUGE || new >= HUGE {
+            // through a fresh block, so that the real sizes on both sides are known
+            let nl = Layout::from_size_align(new, l.align()).unwrap();
+            let q = self.alloc(nl);
+            if !q.is_null() {
+                let old_real = if l.size() >= HUGE { SERVED } else { l.size() };
+                let new_real = if new >= HUGE { SERVED } else { new };
+                std::ptr::copy_nonoverlapping(p, q, std::cmp::min(old_real, new_real));
+                self.dealloc(p, l);
+            }
+            return q;
+        }
         let q = System.realloc(p, l, new);
         if !q.is_null() {
             if new >= l.size() {
